@@ -62,6 +62,10 @@ class Exec:
             self.ledger.seed(c)
         for p, c in sorted(init.get("attributes", {}).items()):
             w.write(repo, p, c)
+        for p in init.get("exec_files") or []:
+            # a script tracked with the executable bit (mode 100755)
+            if os.path.isfile(os.path.join(repo, p)):
+                os.chmod(os.path.join(repo, p), 0o755)
         if init.get("files"):
             r = w.git(repo, "add", "-A")
             r = w.git(repo, "commit", "-q", "-m", "base")
